@@ -251,7 +251,10 @@ TrOp ==
   /\ IF Has(Rec[l], "res")
      THEN hs' = hs /\ Step(OpObs(Rec[l], <<>>))
      ELSE /\ hs' = [s \in Live \cup {Rec[l].h} |->
-                      IF s = Rec[l].h THEN [e |-> Rec[l].e, v |-> OpValue(Rec[l])] ELSE hs[s]]
+                      IF s = Rec[l].h
+                      THEN [e |-> Rec[l].e, v |-> OpValue(Rec[l]),
+                            nodes |-> {Rec[l].g[i][1] : i \in 1 .. Len(Rec[l].g)}]
+                      ELSE hs[s]]
           /\ Step(OpObs(Rec[l], hs'[Rec[l].h].v))
   /\ UNCHANGED <<kind, n, l2v>>
 TrCofNone ==
@@ -277,9 +280,18 @@ TrObs ==
   /\ Ev("mobs")
   /\ Step(ObsObs(Rec[l]))
   /\ UNCHANGED <<kind, n, l2v, hs>>
+(* C05 for the multi-valued kinds: after a collection exactly the inner nodes
+   reachable from live handles remain, and (MTBDD) exactly the terminals
+   that occur as a value of a live handle *)
+GcObs(r) ==
+  LET inner == UNION {hs[s].nodes : s \in Live}
+      terms == UNION {{Val(s)[x] : x \in 1 .. NAsg} : s \in Live}
+  IN << O("C05", "mv.gc.inner:" \o kind, Has(r, "ninner") => r.ninner = Cardinality(inner)),
+        O("C05", "mv.gc.terminals:" \o kind,
+            (Has(r, "nterm") /\ kind = "mtbdd") => r.nterm = Cardinality(terms)) >>
 TrGc ==
   /\ Ev("mgc")
-  /\ Step(<<>>)
+  /\ Step(GcObs(Rec[l]))
   /\ UNCHANGED <<kind, n, l2v, hs>>
 
 TrInit == kind = "tdd" /\ n = 0 /\ l2v = <<>> /\ hs = NoHandles /\ l = 1 /\ nf = 0 /\ fl = <<>>
